@@ -1,6 +1,7 @@
 import ChythonModel.Proofs.C02Paren
 import ChythonModel.Proofs.C02Heap
 import ChythonModel.Proofs.C02Lex
+import ChythonModel.Proofs.C02Chain
 /-!
 # C02 — SMILES write then read is lossless; canonical strings never collide
 
@@ -75,17 +76,40 @@ example : cyclesWF [] [] [[1], [2], [1, 3], [2, 3]] = true ∧
 /-- **paren_balance**: the text of one component — `emit` applied to the flattening of ANY DFS tree (`edges`), with any
     closure table — has balanced parentheses that never close below depth 0; each `(` … `)` pair encloses exactly one
     side chain (`flatKids`). -/
-theorem paren_balance (m : Mol) (opts : Opts) (casted : List (Nat × Nat)) (tokens : List (Nat × List (Nat × Nat)))
+theorem paren_balance (m : Mol) (opts : Opts) (sc : SCtx) (casted : List (Nat × Nat)) (tokens : List (Nat × List (Nat × Nat)))
     (edges : List (Nat × List Nat)) (fuel start : Nat) (vb : List (Nat × Nat))
     (out : List WTok) (order : List Nat) (vb' : List (Nat × Nat))
-    (h : emit m opts casted tokens (flatten edges fuel start) vb = .ok (out, order, vb')) :
+    (h : emit m opts sc casted tokens (flatten edges fuel start) vb = .ok (out, order, vb')) :
     parenDepth 0 out = some 0 := by
-  rw [emit_parens m opts casted tokens _ vb out order vb' h 0]
+  rw [emit_parens m opts sc casted tokens _ vb out order vb' h 0]
   simp only [flatten, fp_atom]
   have := flat_balanced edges fuel start 0 []
   simpa [fparen] using this
 
-/-! ## 4. injectivity from losslessness -/
+/-! ## 4. chain bonds -/
+
+/-- **chain_roundtrip**: take ANY DFS trees (one per component) and any closure tables; write every component with
+    `emit ∘ flatten` and join the components with dots, as `_smiles` does.  Whatever a reader that follows the SMILES
+    connection rules (previous atom, branch stack, dot) makes of that token list, its chain bonds are exactly the
+    tree bonds `(parent, child)` of the DFS trees, in written order — every atom is attached to its DFS parent, never to
+    the atom that happens to precede it in the text, and nothing is attached across a dot. -/
+theorem chain_roundtrip (m : Mol) (opts : Opts) (rs : List Round) (h : ∀ r ∈ rs, RoundEmitted m opts r)
+    (es : List REdge) (hread : readToks (joinRounds rs) = .ok es) :
+    chainOf es = rs.flatMap fun r => r.smi.filterMap FTok.bond? := by
+  have h1 := readToks_chain _ _ hread
+  have h2 := skRead_rounds m opts rs h none false (Or.inl rfl)
+  simp only [chainRead] at h1
+  have e : wsk (joinRounds rs) = (joinRounds rs).filterMap WTok.skel := rfl
+  rw [← e, h2] at h1
+  simp only [Option.some.injEq] at h1
+  rw [← h1]; rfl
+
+/-- the same without assuming that the closures can be read: the chain bonds are determined by atoms, parentheses and dots alone -/
+theorem chain_roundtrip_skeleton (m : Mol) (opts : Opts) (rs : List Round) (h : ∀ r ∈ rs, RoundEmitted m opts r) :
+    chainRead (joinRounds rs) = some (rs.flatMap fun r => r.smi.filterMap FTok.bond?) :=
+  skRead_rounds m opts rs h none false (Or.inl rfl)
+
+/-! ## 5. injectivity from losslessness -/
 
 /-- **injective_of_lossless**: for ANY writer, reader and equivalence `iso`: if reading what was written gives back an
     equivalent object for the two objects in question, then equal texts imply equivalent objects — "canonical strings
